@@ -37,7 +37,7 @@ func genC15(t *rapid.T) kit.History {
 	// half of the child stores have an index of their own (nullable unique index over the child-only field)
 	second := rapid.IntRange(0, 2).Draw(t, "secondChild") == 0
 	cfg := c15Cfg(rapid.IntRange(0, 2).Draw(t, "extended") == 0, rapid.Bool().Draw(t, "uniqueExtra"), second)
-	return kit.GenHistory(t, cfg, 20, 3, false, 60, func(t *rapid.T, l string, m *kit.Model) kit.Op {
+	return kit.GenHistory(t, cfg, 20, 3, true, 60, func(t *rapid.T, l string, m *kit.Model) kit.Op {
 		store := "emps"
 		if rapid.Bool().Draw(t, l+"_viaChild") {
 			store = "mgrs"
